@@ -1,0 +1,101 @@
+//go:build verif
+
+package binding
+
+// Contracts for the deductive verifier in /verif (ruxvc); comments only.
+//
+// What is proved here (C18): the source-selection table of Auto, that a successful bind went through the
+// validator when one is enabled, that decoder errors are returned as they are, and that no rux code panics.
+// The codecs themselves (encoding/json, encoding/xml, formam, gookit/validate) are assumed contracts: whether
+// encode-then-bind round-trips is a statement about them and is not decided (see DESIGN.md).
+//
+// decodedKind(obj): 1 url values (query/form/header), 4 JSON, 5 XML.   decodedFrom(obj): the values map or reader used.
+// validatedOK(obj): the validator accepted obj.
+//@ ghost decodedKind(ref) int
+//@ ghost decodedFrom(ref) ref
+//@ ghost validatedOK(ref) bool
+//
+//@ extern (*net/url.URL).Query(u) (v)
+//@   ensures v == cast(uf("url.query", ref, u), url.Values)
+//@ extern (*net/http.Request).ParseForm(r) (err)
+//@   requires r != nil
+//@   modifies r.Form, r.PostForm
+//@   ensures err == nil ==> r.PostForm == cast(uf("parsed.postform", ref, r), url.Values)
+//@ extern (*net/http.Request).ParseMultipartForm(r, maxMemory) (err)
+//@   requires r != nil
+//@   modifies r.Form, r.PostForm, r.MultipartForm
+//@   ensures err == nil ==> r.PostForm == cast(uf("parsed.multipart", ref, r), url.Values)
+//@ extern github.com/monoculum/formam.NewDecoder(opts) (dec)
+//@   ensures dec != nil
+//@ extern (github.com/monoculum/formam.Decoder).Decode(dec, vs, dst) (err)
+//@   modifies decodedKind(refof(dst)), decodedFrom(refof(dst))
+//@   ensures decodedKind(refof(dst)) == 1 && decodedFrom(refof(dst)) == vs
+//@ extern encoding/json.NewDecoder(r) (dec)
+//@   ensures dec != nil && uf("json.dec.src", ref, dec) == refof(r)
+//@ extern (*encoding/json.Decoder).Decode(dec, v) (err)
+//@   requires dec != nil
+//@   modifies decodedKind(refof(v)), decodedFrom(refof(v))
+//@   ensures decodedKind(refof(v)) == 4 && decodedFrom(refof(v)) == uf("json.dec.src", ref, dec)
+//@ extern encoding/xml.NewDecoder(r) (dec)
+//@   ensures dec != nil && uf("xml.dec.src", ref, dec) == refof(r)
+//@ extern (*encoding/xml.Decoder).Decode(dec, v) (err)
+//@   requires dec != nil
+//@   modifies decodedKind(refof(v)), decodedFrom(refof(v))
+//@   ensures decodedKind(refof(v)) == 5 && decodedFrom(refof(v)) == uf("xml.dec.src", ref, dec)
+//@ extern (DataValidator).Validate(self, i) (err)
+//@   modifies validatedOK(refof(i))
+//@   ensures validatedOK(refof(i)) == (err == nil)
+//@ extern strings.NewReader(s) (rd)
+//@   ensures rd != nil
+//
+//@ func Validate [C18]
+//@   modifies validatedOK(refof(obj))
+//@   ensures validator_consulted: Validator != nil ==> validatedOK(refof(obj)) == (result == nil)
+//@   ensures disabled: Validator == nil ==> result == nil && validatedOK(refof(obj)) == old(validatedOK(refof(obj)))
+//
+//@ func DecodeUrlValues [C18]
+//@   modifies decodedKind(refof(ptr)), decodedFrom(refof(ptr)), validatedOK(refof(ptr))
+//@   ensures source: decodedKind(refof(ptr)) == 1 && decodedFrom(refof(ptr)) == refof(values)
+//@   ensures success_means_validated: result == nil && Validator != nil ==> validatedOK(refof(ptr))
+//@ func decodeJSON [C18]
+//@   modifies decodedKind(refof(ptr)), decodedFrom(refof(ptr)), validatedOK(refof(ptr))
+//@   ensures source: decodedKind(refof(ptr)) == 4 && decodedFrom(refof(ptr)) == refof(r)
+//@   ensures success_means_validated: result == nil && Validator != nil ==> validatedOK(refof(ptr))
+//@ func decodeXML [C18]
+//@   modifies decodedKind(refof(obj)), decodedFrom(refof(obj)), validatedOK(refof(obj))
+//@   ensures source: decodedKind(refof(obj)) == 5 && decodedFrom(refof(obj)) == refof(r)
+//@   ensures success_means_validated: result == nil && Validator != nil ==> validatedOK(refof(obj))
+//
+//@ spec hasBody(m string) bool = m == "POST" || m == "PUT" || m == "PATCH"
+//@ spec ctype(r *http.Request) string = uf("header.get", string, r.Header, "Content-Type")
+//@ spec isForm(ct string) bool = contains(ct, "/x-www-form-urlencoded")
+//@ spec isMultipart(ct string) bool = contains(ct, "/form-data")
+//@ spec isJSON(ct string) bool = contains(ct, "/json")
+//@ spec isXML(ct string) bool = contains(ct, "/xml")
+//
+//@ func Auto [C18]
+//@   requires r != nil && r.URL != nil
+//@   modifies decodedKind(refof(obj)), decodedFrom(refof(obj)), validatedOK(refof(obj)), r.Form, r.PostForm, r.MultipartForm
+//@   ensures query_for_bodyless_methods: !hasBody(old(r.Method)) ==> decodedKind(refof(obj)) == 1 && decodedFrom(refof(obj)) == uf("url.query", ref, r.URL)
+//@       && r.PostForm == old(r.PostForm) && r.Form == old(r.Form)
+//@   ensures urlencoded_form: hasBody(r.Method) && isForm(ctype(r)) && err == nil ==> decodedKind(refof(obj)) == 1 && decodedFrom(refof(obj)) == uf("parsed.postform", ref, r)
+//@   ensures multipart_form: hasBody(r.Method) && !isForm(ctype(r)) && isMultipart(ctype(r)) && err == nil ==> decodedKind(refof(obj)) == 1 && decodedFrom(refof(obj)) == uf("parsed.multipart", ref, r)
+//@   ensures json_body: hasBody(r.Method) && !isForm(ctype(r)) && !isMultipart(ctype(r)) && isJSON(ctype(r)) ==> decodedKind(refof(obj)) == 4 && decodedFrom(refof(obj)) == refof(r.Body)
+//@   ensures xml_body: hasBody(r.Method) && !isForm(ctype(r)) && !isMultipart(ctype(r)) && !isJSON(ctype(r)) && isXML(ctype(r)) ==> decodedKind(refof(obj)) == 5 && decodedFrom(refof(obj)) == refof(r.Body)
+//@   ensures other_type_is_an_error: hasBody(r.Method) && !isForm(ctype(r)) && !isMultipart(ctype(r)) && !isJSON(ctype(r)) && !isXML(ctype(r)) ==> err != nil
+//@       && decodedKind(refof(obj)) == old(decodedKind(refof(obj))) && validatedOK(refof(obj)) == old(validatedOK(refof(obj)))
+//@   ensures success_means_validated: err == nil && Validator != nil ==> validatedOK(refof(obj))
+//@ lemma media_types: [C18] isForm("application/x-www-form-urlencoded") && !isForm("multipart/form-data") && isMultipart("multipart/form-data")
+//@     && !isForm("application/json") && !isMultipart("application/json") && isJSON("application/json")
+//@     && !isForm("text/xml") && !isMultipart("text/xml") && !isJSON("text/xml") && isXML("text/xml")
+//@     && !isForm("application/xml") && !isMultipart("application/xml") && !isJSON("application/xml") && isXML("application/xml")
+//@     && !isForm("") && !isMultipart("") && !isJSON("") && !isXML("") && !isForm("text/plain") && !isMultipart("text/plain") && !isJSON("text/plain") && !isXML("text/plain")
+//@ func Bind [C18]
+//@   requires r != nil && r.URL != nil
+//@   modifies decodedKind(refof(obj)), decodedFrom(refof(obj)), validatedOK(refof(obj)), r.Form, r.PostForm, r.MultipartForm
+//@   ensures success_means_validated: result == nil && Validator != nil ==> validatedOK(refof(obj))
+//@ func MustBind [C18]
+//@   requires r != nil && r.URL != nil
+//@   modifies decodedKind(refof(obj)), decodedFrom(refof(obj)), validatedOK(refof(obj)), r.Form, r.PostForm, r.MultipartForm
+//@   panics *
+//@   ensures success_means_validated: Validator != nil ==> validatedOK(refof(obj))
